@@ -381,9 +381,12 @@ type WireCase struct {
 	Size    int    `json:"size"`             // payload size
 	Tamper  []int  `json:"tamper,omitempty"` // UDP only: indices (among server->reader RTP datagrams) that get one bit flipped
 	Bit     int    `json:"bit,omitempty"`
+	// PlainPeer: a second reader plays the same stream with the plain profile over TCP (inside TLS)
+	PlainPeer bool `json:"plain_peer,omitempty"`
 }
 
 type wireStats struct {
+	PlainPeer bool
 	Delivered int
 	OnWire    int
 	Tampered  int
@@ -497,9 +500,67 @@ func runWire(c WireCase) (*wireStats, error) {
 			return st, nil // no switch happened: nothing to judge in this variant
 		}
 		st.Switched = true
-		time.Sleep(150 * time.Millisecond) // let DESCRIBE/SETUP/PLAY over TCP complete
+		// let DESCRIBE/SETUP/PLAY over TCP complete: warm-up packets (not among the judged ones) until one arrives
+		// (a warm-up that still reaches the old UDP session does not count: only what arrives once the client reports TCP)
+		warm := uint16(40000)
+		tcpSince := int64(-1)
+		ready := false
+		for dl := time.Now().Add(5 * time.Second); time.Now().Before(dl); warm++ {
+			if tcpSince < 0 {
+				if t := rd.Transport(); t != nil && t.Session != nil && t.Session.Protocol == gortsplib.ProtocolTCP {
+					tcpSince = nGot.Load()
+				}
+			} else if nGot.Load() > tcpSince {
+				ready = true
+				break
+			}
+			w.Stream.WritePacketRTP(desc.Medias[0], &rtp.Packet{Header: rtp.Header{Version: 2, PayloadType: desc.Medias[0].Formats[0].PayloadType(), SequenceNumber: warm, Timestamp: 3}, Payload: []byte{1, 2, 3, 4}}) //nolint:errcheck
+			time.Sleep(10 * time.Millisecond)
+		}
+		if !ready {
+			return st, nil // the switched session never started delivering within 5 s: nothing to judge in this variant
+		}
 		if t := rd.Transport(); t != nil && t.Session != nil && t.Session.Profile != headers.TransportProfileSAVP {
 			return st, fmt.Errorf("after the automatic switch from UDP to TCP the session's profile is %v: a session negotiated as SAVP was silently downgraded", t.Session.Profile)
+		}
+	}
+	if c.PlainPeer {
+		// a second reader of the same stream that negotiated the plain profile over TCP (legitimate on an RTSPS server: its
+		// media travels inside TLS): the secure reader's packets must stay encrypted whatever the other readers chose
+		if pr, err := dialRawTLS(w.Host, true); err == nil {
+			defer pr.nc.Close()
+			ok := true
+			if res, cerr, err := pr.do(&base.Request{Method: base.Describe, URL: u}); cerr != nil || err != nil || res.StatusCode != 200 {
+				ok = false
+			}
+			sess := ""
+			for i := 0; ok && i < 2; i++ {
+				tu, _ := base.ParseURL(w.URL("/stream/trackID=" + fmt.Sprint(i)))
+				h := base.Header{"Transport": base.HeaderValue{fmt.Sprintf("RTP/AVP/TCP;unicast;interleaved=%d-%d", 2*i, 2*i+1)}}
+				if sess != "" {
+					h["Session"] = base.HeaderValue{sess}
+				}
+				res, cerr, err := pr.do(&base.Request{Method: base.Setup, URL: tu, Header: h})
+				if cerr != nil || err != nil || res.StatusCode != 200 {
+					ok = false
+					break
+				}
+				sess = sessionIDOf(res)
+			}
+			if ok {
+				if res, cerr, err := pr.do(&base.Request{Method: base.Play, URL: u, Header: base.Header{"Session": base.HeaderValue{sess}}}); cerr == nil && err == nil && res.StatusCode == 200 {
+					st.PlainPeer = true
+					go func() {
+						buf := make([]byte, 8192)
+						for {
+							pr.nc.SetReadDeadline(time.Now().Add(30 * time.Second))
+							if _, err := pr.nc.Read(buf); err != nil {
+								return
+							}
+						}
+					}()
+				}
+			}
 		}
 	}
 	var pub *gortsplib.Client
@@ -586,14 +647,20 @@ func runWire(c WireCase) (*wireStats, error) {
 	if bad != "" {
 		return st, fmt.Errorf("the client of a secure session (rtsps, media announced as SAVP) sent a SETUP with transport %s", bad)
 	}
-	st.Delivered = int(nGot.Load())
+	st.Delivered = 0
 	var verr error
 	got.Range(func(k, v any) bool {
 		seq := k.(uint16)
 		if seq == sentinelSeq {
 			return true
 		}
+		if seq >= 40000 && bytes.Equal(v.([]byte), []byte{1, 2, 3, 4}) {
+			return true // warm-up after the automatic switch
+		}
 		i := int(seq) - 100
+		if i >= 0 && i < c.Packets {
+			st.Delivered++
+		}
 		if i >= c.Packets && i < c.Packets+fill && bytes.Equal(v.([]byte), []byte{1, 2, 3, 4}) {
 			return true // filler
 		}
